@@ -353,7 +353,7 @@ def run_server_side(rep, sctx, tier, seed):
     from props import srvrdiff
     rep.assumptions += ['the server-side world is validated on every run against the natively compiled mount crate (mount/actix-server/src/server/drv.rs: real ServerInner / handle_cmd / multiplexer / signals, a real accept-thread stand-in that ends when Stop is queued) on random concrete schedules']
     if not srvrdiff.differential(rep, ctx, seed, 150 if q else 600): return
-    for W, steps in (((1, 6), (2, 5)) if q else ((1, 7), (2, 6))):
+    for W, steps in (((1, 6), (2, 5)) if q else ((1, 7), (2, 5), (3, 4))):
         acc = explore(ctx.mk, make_body(ctx, steps, W), seed=seed, seed_paths=200)
         rep.bounds['server-side W=%d' % W] = {'operations': steps, 'paths': acc.paths, 'stops': '<= 2', 'signals': '<= 1', 'pause/resume': '<= 1'}
         acc.to_report(rep)
